@@ -139,7 +139,7 @@ func (w *World) sitesByType() map[string][]*siteInfo {
 
 func ruleC01R1(w *World, r *Report) {
 	const rule = "C01/R1"
-	r.rule(rule, "every word and punctuation mark in the constant text of SQL(N) is a token that the productions of N test or expect (the parser side is over-approximated, so a printed word that is really accepted cannot be reported)", 200)
+	r.rule(rule, "every word and punctuation mark in the constant text of SQL(N) is a token that the productions of N test or expect (the parser side is over-approximated, so a printed word that is really accepted cannot be reported)", 100)
 	cat := w.Catalog()
 	by := w.sitesByType()
 	for _, ns := range cat.Structs {
@@ -205,7 +205,7 @@ func ruleC01R1(w *World, r *Report) {
 
 func ruleC01R2(w *World, r *Report) {
 	const rule = "C01/R2"
-	r.rule(rule, "every constant keyword or punctuation that a production must consume before it allocates N (an expect call dominating the allocation in the same function) occurs in the constant text of SQL(N)", 200)
+	r.rule(rule, "every constant keyword or punctuation that a production must consume before it allocates N (an expect call dominating the allocation in the same function) occurs in the constant text of SQL(N)", 100)
 	cat := w.Catalog()
 	by := w.sitesByType()
 	kinds := w.lexerKinds()
@@ -416,7 +416,7 @@ func (w *World) separatorsOf(si *siteInfo, field string) (seps map[string]bool, 
 
 func ruleC01R3(w *World, r *Report) {
 	const rule = "C01/R3"
-	r.rule(rule, "list separators agree: for sqlJoin(x.F, sep) in SQL(N), the tokens the parser consumes between two elements of N.F are {','} iff trim(sep) is ',', {'.'} iff '.', none iff sep is non-empty white space", 50)
+	r.rule(rule, "list separators agree: for sqlJoin(x.F, sep) in SQL(N), the tokens the parser consumes between two elements of N.F are {','} iff trim(sep) is ',', {'.'} iff '.', none iff sep is non-empty white space", 25)
 	cat := w.Catalog()
 	by := w.sitesByType()
 	for _, ns := range cat.Structs {
@@ -906,7 +906,7 @@ func guardField(g ssa.Value, recv ssa.Value, depth int) string {
 // ruleC01R6: SQL() prints the fields in the order the parser consumed them.
 func ruleC01R6(w *World, r *Report) {
 	const rule = "C01/R6"
-	r.rule(rule, "SQL() prints the parts of a node in source order: whenever a SQL() method prints field F before field G (in some flattened return sequence), no production that can fill both parses G entirely before F — printing in another order moves tokens and usually no longer re-parses", 80)
+	r.rule(rule, "SQL() prints the parts of a node in source order: whenever a SQL() method prints field F before field G (in some flattened return sequence), no production that can fill both parses G entirely before F — printing in another order moves tokens and usually no longer re-parses", 40)
 	cat := w.Catalog()
 	sitesByType := map[string][]*siteInfo{}
 	for _, si := range w.sites() {
@@ -1179,7 +1179,7 @@ func ruleC01R7(w *World, r *Report) {
 // of a sub-message" — yields text that the parser reads with another production: name {…} is not name: {…}.
 func ruleC01R8(w *World, r *Report) {
 	const rule = "C01/R8"
-	r.rule(rule, "a constant keyword/punctuation consumed by an expect call that dominates every allocation of N is contained in the constant text of every printed form of SQL(N), or of none", 100)
+	r.rule(rule, "a constant keyword/punctuation consumed by an expect call that dominates every allocation of N is contained in the constant text of every printed form of SQL(N), or of none", 50)
 	cat := w.Catalog()
 	by := w.sitesByType()
 	kinds := w.lexerKinds()
